@@ -436,6 +436,12 @@ def c06(ctx):
     V.mc(ctx, "MC_C06", workers=12)
     summ = V.gen_traces(ctx, shards=12)
     V.validate(ctx, "Trace_C06", summ, V.default_sig, par=12, timeout=3000)
+    if ctx.tier == "thorough":
+        # structured fuzzing: the fuzzer's bytes drive a generator of sections and carriages; corpus regenerated and judged
+        rows, nrows = V.go_fuzz(ctx, "FuzzC06", 120, parallel=8)
+        if nrows:
+            summf = V.gen_traces(ctx, shards=8, name="trace-fuzz", extra=["-in", rows])
+            V.validate(ctx, "Trace_C06", summf, V.default_sig, par=8, timeout=3000)
     return V.finish(ctx, "model_checking",
                     rule="MC: small PMTs x pointer_field {0,1,3} x preceding section x stuffing: section arithmetic, CRC residue, accessors, and the closed form of the completion predicate equals "
                          "Psi!Done on every prefix (false strictly inside a section, true at the end). B3: 17 (68) PMT shapes (0..40 streams, descriptor bodies 0..255, up to the 1021 limit) x "
@@ -502,6 +508,12 @@ def c09(ctx):
     V.mc(ctx, "MC_C08", workers=8)
     summ = V.gen_traces(ctx, shards=12)
     V.validate(ctx, "Trace_C09", summ, c09_sig, par=12, timeout=3000)
+    if ctx.tier == "thorough":
+        # structured fuzzing: the fuzzer's bytes drive the history generator; the corpus is regenerated and judged
+        rows, nrows = V.go_fuzz(ctx, "FuzzC09", 120, parallel=8)
+        if nrows:
+            summf = V.gen_traces(ctx, shards=8, name="trace-fuzz", extra=["-in", rows])
+            V.validate(ctx, "Trace_C09", summf, c09_sig, par=8, timeout=3000)
     return V.finish(ctx, "model_checking",
                     rule="MC: structural consistency of Scte35!SectionOf (shared with C08). B3: histories on real signals, created through the API (splice_null / time_signal / splice_insert, 0..2 "
                          "segmentation descriptors) or decoded from generated canonical sections (incl. foreign descriptors), with 6..24 setter calls (every public setter of the signal, command and "
